@@ -1,9 +1,11 @@
 use crate::engine::Ctx;
 
+pub mod c01;
 pub mod c36;
 
 pub fn run(ctx: &Ctx, id: &str) -> bool {
     match id {
+        "C01" => c01::run(ctx),
         "C36" => c36::run(ctx),
         _ => return false,
     }
